@@ -186,7 +186,9 @@ def concretize(hist, idx, seed):
             "death_signal": rng.choice(["KILL", "TERM", "KILL"]),
             "ws_stdout_file": rng.random() < 0.3,
             "wn_stdout_file": rng.random() < 0.2,
-            "backlog": rng.choice([None, 16, 128])}
+            "backlog": rng.choice([None, 16, 128]),
+            # circusd started with standard input closed: the first managed socket is then descriptor 0
+            "stdin_closed": (idx % 4 == 1)}
 
 
 def make_ini(d, hist, conc):
@@ -229,7 +231,7 @@ class LiveRun(object):
         self.si = hist["si"]
         self.watchers = tuple(sorted(hist["watchers"]))
         self.conc = conc
-        self.daemon = livelib.Daemon(d, make_ini(d, hist, conc))
+        self.daemon = livelib.Daemon(d, make_ini(d, hist, conc), stdin_closed=conc.get("stdin_closed", False))
         self.records = livelib.Records(os.path.join(d, "rec"))
         self.ctl = None
         self.ords = {}              # (pid, start_ticks) -> ordinal within its watcher
